@@ -326,3 +326,18 @@ def c06_extra(Job, tier):
 
 def c07_extra(Job, tier):
     return trackcheck_jobs(Job) + mmb_jobs(Job) + write_span_jobs(Job)
+
+
+# ---- destination directory / make_name (C12) ---------------------------------------------------------------------------
+def destdir_jobs(Job, cfg=CFG_NDEBUG, tier="quick"):
+    g = ["destdir_extract_unused", "destdir_extract_files", "make_name"]
+    def J(name, entry, enforce):
+        return Job("D_%s_%s" % (name, cfg[0]), "harness/dfs_destdir.c", entry, enforce=enforce, defines=list(cfg[1]),
+                   extract=ext(g), tier=tier, solver="portfolio")
+    return [J("destdir_extract_unused", "h_destdir_unused", ["destdir_extract_unused"]),
+            J("destdir_extract_files", "h_destdir_files", ["destdir_extract_files"]),
+            J("make_name", "h_make_name", ["make_name"])]
+
+
+def c12_extra(Job, tier):
+    return destdir_jobs(Job)
